@@ -819,12 +819,21 @@ func (c *Client) peekPacket() (head byte, err error) {
 			}
 		}
 
-		c.peek, err = c.bufr.Peek(size)
+		// A PUBLISH beyond the buffer capacity gets served as a
+		// BigMessage once the buffer is full.
+		n := size
+		big := head>>4 == typePUBLISH && size > c.bufr.Size()
+		if big {
+			n = c.bufr.Size()
+		}
+		c.peek, err = c.bufr.Peek(n)
 		switch {
-		case err == nil: // OK
-			return head, err
-		case head>>4 == typePUBLISH && errors.Is(err, bufio.ErrBufferFull):
+		case err != nil:
+			break
+		case big:
 			return head, &BigMessage{Client: c, Size: size}
+		default:
+			return head, nil
 		}
 
 		// Allow deadline expiry if at least one byte was transferred.
